@@ -53,6 +53,8 @@ type Scenario struct {
 	// HotReaders (free mode): goroutines that spin on GetLog(LastIndex()+1) / GetLog(LastIndex()) against the live
 	// tail until the writer is done. Only anomalies are recorded (anything but "not found" or the right entry).
 	HotReaders int `json:"hotReaders"`
+	// StableClients (free mode, with WithStable): concurrent SetUint64/GetUint64 clients, one key each.
+	StableClients int `json:"stableClients"`
 }
 
 var out *bufio.Writer
@@ -382,9 +384,88 @@ func segStress(sc *Scenario) {
 	emit(map[string]any{"ev": "schedule", "len": 0, "passed": 0, "aborted": false, "reason": "", "solo": "", "soloHeld": 0})
 }
 
+// bigRead: entries larger than the 64 KiB read buffer take two ReadAt calls. Reader A is parked (sim fs ReadHook) before
+// its second ReadAt of GetLog(1) while reader B completes GetLog(2) and GetLog(3) on the same P (GOMAXPROCS(1), so that
+// the buffer pool hands B whatever A gave back); then A continues. Both must return exactly their entry.
+func bigRead(sc *Scenario) {
+	emit(map[string]any{"ev": "reset", "id": sc.ID, "mode": sc.Mode, "withCloser": false, "prog": []string{}})
+	wd := &world{sc: sc, pool: valpool.New(sc.Seed, false)}
+	wd.rec = sim.NewRecorder()
+	wd.fs = sim.NewFS(wd.rec, sim.EmptyImage())
+	wd.meta = sim.NewMeta(wd.rec, sim.EmptyImage())
+	setHook(nil)
+	if err := wd.open(); err != nil {
+		emit(map[string]any{"ev": "open", "res": "err", "msg": err.Error()})
+		return
+	}
+	defer wd.w.Close()
+	for i := uint64(1); i <= 3; i++ {
+		l := wd.pool.Log(valpool.Ent{Idx: i, Cid: int(i), Sz: 1, Bytes: 70000 + int(i)*8})
+		err := wd.w.StoreLogs([]*raft.Log{l})
+		emit(map[string]any{"ev": "wop", "op": "store", "idx": i, "cid": int(i), "res": class(err), "msg": emsg(err), "thr": 0})
+		if err != nil {
+			return
+		}
+	}
+	waitNoRotator()
+	old := runtime.GOMAXPROCS(1)
+	defer runtime.GOMAXPROCS(old)
+	var aG int64
+	var nA int32
+	parked := make(chan struct{})
+	gate := make(chan struct{})
+	wd.rec.ReadHook = func(name string, off int64, n int) {
+		if sim.GID() == atomic.LoadInt64(&aG) && atomic.AddInt32(&nA, 1) == 2 {
+			close(parked)
+			<-gate
+		}
+	}
+	defer func() { wd.rec.ReadHook = nil }()
+	read := func(p int, idx uint64) {
+		defer func() {
+			if x := recover(); x != nil {
+				emit(map[string]any{"ev": "panic", "who": "big reader", "msg": fmt.Sprint(x), "stack": ""})
+			}
+		}()
+		var lg raft.Log
+		err := wd.w.GetLog(idx, &lg)
+		cid := 0
+		if err == nil {
+			cid = wd.pool.Identify(idx, &lg)
+		}
+		emit(map[string]any{"ev": "read", "p": p, "kind": "get", "idx": idx, "res": class(err), "val": cid, "from": 3, "to": 3,
+			"cs": 0, "msg": emsg(err), "sd": int64(1 << 30)})
+	}
+	doneA := make(chan struct{})
+	go func() {
+		defer close(doneA)
+		atomic.StoreInt64(&aG, sim.GID())
+		read(1, 1)
+	}()
+	select {
+	case <-parked:
+	case <-doneA: // the entry came in one read: nothing to interleave on this tree
+	case <-time.After(3 * time.Second):
+	}
+	read(2, 2)
+	read(2, 3)
+	close(gate)
+	select {
+	case <-doneA:
+	case <-time.After(5 * time.Second):
+		emit(map[string]any{"ev": "stuck", "dump": []string{"big reader A did not return"}})
+	}
+	flushDeferred()
+	emit(map[string]any{"ev": "schedule", "len": 0, "passed": 0, "aborted": false, "reason": "", "solo": "", "soloHeld": 0})
+}
+
 func runScenario(sc *Scenario) {
 	if sc.Mode == "segstress" {
 		segStress(sc)
+		return
+	}
+	if sc.Mode == "bigread" {
+		bigRead(sc)
 		return
 	}
 	emit(map[string]any{"ev": "reset", "id": sc.ID, "mode": sc.Mode, "withCloser": sc.WithCloser, "prog": sc.Prog})
@@ -668,8 +749,36 @@ func runScenario(sc *Scenario) {
 			err := wd.w.Set([]byte("k"), []byte("v1"))
 			emit(map[string]any{"ev": "stable", "op": "set", "res": class(err), "msg": emsg(err), "cs": atomic.LoadInt32(&closeStarted)})
 			v, err := wd.w.Get([]byte("k"))
-			emit(map[string]any{"ev": "stable", "op": "get", "res": class(err), "val": string(v), "msg": emsg(err), "cs": atomic.LoadInt32(&closeStarted)})
+			emit(map[string]any{"ev": "stable", "op": "get", "res": class(err), "val": string(v), "want": "v1", "msg": emsg(err), "cs": atomic.LoadInt32(&closeStarted)})
 		})
+		// free mode: further StableStore clients, each the only writer of its own uint64 key, running concurrently with
+		// each other, the log writer and Close: what a client reads back is what it wrote last
+		for c := 0; c < sc.StableClients && sc.Mode == "free"; c++ {
+			c := c
+			spawn(fmt.Sprintf("stableu%d", c), func() {
+				key := []byte(fmt.Sprintf("u%d", c))
+				for it := 0; it < 40; it++ {
+					want := uint64(c+1)<<40 + uint64(it)*7 + 1
+					err := wd.w.SetUint64(key, want)
+					if err != nil {
+						emit(map[string]any{"ev": "stable", "op": "setu", "res": class(err), "msg": emsg(err), "cs": atomic.LoadInt32(&closeStarted)})
+						if errors.Is(err, wal.ErrClosed) {
+							return
+						}
+						continue
+					}
+					got, err := wd.w.GetUint64(key)
+					if err != nil && errors.Is(err, wal.ErrClosed) {
+						return
+					}
+					if err != nil || got != want || it == 0 {
+						emit(map[string]any{"ev": "stable", "op": "getu", "res": class(err), "val": fmt.Sprint(got), "want": fmt.Sprint(want), "msg": emsg(err),
+							"cs": atomic.LoadInt32(&closeStarted)})
+					}
+					runtime.Gosched()
+				}
+			})
+		}
 	}
 	if sc.WithCloser {
 		spawn("closer", func() {
